@@ -90,6 +90,7 @@ static void prepare_includes(void)
     snprintf(b, sizeof b, "<verif-1.0>\nbegin A\nt1\n"); write_file(INCP[1], b, strlen(b));
     snprintf(b, sizeof b, "<verif-1.0>\n%%include %s\nv $V\n", INCP[0]); write_file(INCP[2], b, strlen(b));
 }
+static int g_skip_state;          /* lines given outside a file: only the call sequence is compared, not the state values */
 static void compare_and_finish(const char *shape, int expect_depth)
 {
     if (g_cap_bad) FAIL("spifconf_parse", "invariant:index-not-below-capacity", shape, "a handler ran with %s", g_cap_msg);
@@ -98,7 +99,7 @@ static void compare_and_finish(const char *shape, int expect_depth)
     } else for (int i = 0; i < NGOT; i++) {
         ev_t *g = &GOT[i], *e = &EXP[i];
         if (g->ctx != e->ctx || g->kind != e->kind || strcmp(g->text, e->text)) { FAIL("spifconf_parse_line", "model:delivery", shape, "call %d went to context %c as %c \"%s\", expected context %c %c \"%s\"", i, g->ctx, g->kind, g->text, e->ctx, e->kind, e->text); break; }
-        if (g->state_in != e->state_in) { FAIL("spifconf_parse_line", "model:state-threading", shape, "call %d (%c %c \"%s\") received state %ld, expected %ld", i, g->ctx, g->kind, g->text, g->state_in, e->state_in); break; }
+        if (!g_skip_state && g->state_in != e->state_in) { FAIL("spifconf_parse_line", "model:state-threading", shape, "call %d (%c %c \"%s\") received state %ld, expected %ld", i, g->ctx, g->kind, g->text, g->state_in, e->state_in); break; }
     }
     if (fstate_idx != 0) FAIL("spifconf_parse", "model:file-stack-not-restored", shape, "file stack index is %d after parsing", fstate_idx);
     if (g_open_files != 0) FAIL("spifconf_parse", "fd-leak", shape, "%d of %d files opened by the parser were not closed", g_open_files, g_opens);
@@ -225,6 +226,53 @@ static void ll_case(uint64_t idx, void *ctx)
     mc_nontrivial();
     mc_outcome((uint64_t) fits);
 }
+/* ---- lines given outside any file (spifconf_parse_line(NULL, "CONTEXT text...")): each is one begin call, at most one text call and one end
+ * call for its context; afterwards an ordinary file parses as if nothing had happened */
+static const char *AV[] = { "A attr value", "B x", "A", "zz text", "A %", "A %zz", "", "# c", "A t1 $V" };
+#define NAV ((int) (sizeof AV / sizeof AV[0]))
+static void av_model(int k)
+{
+    char ctx = AV[k][0] == 'A' ? 'A' : (AV[k][0] == 'B' ? 'B' : '0');
+    if (!AV[k][0] || AV[k][0] == '#') return;
+    if (ctx == '0') { m_unknown_ctx++; const char *sp = strchr(AV[k], ' '); if (sp && sp[1] && sp[1] != '%') m_null_errors++; return; }     /* the null context swallows its calls; text in it is an error */
+    m_emit(ctx, 'B', "", 0);
+    const char *sp = strchr(AV[k], ' ');
+    if (sp && sp[1] && sp[1] != '%') { char t[40]; snprintf(t, sizeof t, "%s", sp + 1); char *v = strstr(t, "$V"); if (v) strcpy(v, "val"); m_emit(ctx, 'T', t, 0); }
+    m_emit(ctx, 'E', "", 0);
+}
+static void av_desc(uint64_t idx, void *ctx, char *b, size_t n)
+{
+    int d[4]; size_t o = 0; (void) ctx; mc_word_decode(idx, NAV, g_n, d);
+    o += (size_t) snprintf(b, n, "lines given outside a file:");
+    for (int i = 0; i < g_n; i++) o += (size_t) snprintf(b + o, n - o, " [%s]", AV[d[i]]);
+    snprintf(b + o, n - o, ", then the file [begin A] [t1] [end]");
+}
+static void av_case(uint64_t idx, void *ctx)
+{
+    int d[4]; (void) ctx; mc_word_decode(idx, NAV, g_n, d);
+    const char *shape = "lines outside a file"; mc_set_shape(shape);
+    static const int kinds[3] = { L_BEGIN_A, L_T1, L_END };
+    char data[200]; size_t o = (size_t) snprintf(data, sizeof data, "<verif-1.0>\nbegin A\nt1\nend\n");
+    snprintf(g_main, sizeof g_main, "%s/argv-%d.cfg", scratch(), (int) getpid());
+    write_file(g_main, data, o);
+    setup();
+    g_env_on = 1; g_ledger_on = 1; g_allow_fork = 0;
+    for (int i = 0; i < g_n; i++) {
+        char *b = malloc(CONFIG_BUFF); strcpy(b, AV[d[i]]);
+        spifconf_parse_line(NULL, (spif_charptr_t) b); free(b);
+        av_model(d[i]);
+        if (fstate_idx != 0 || ctx_state_idx != 0) { FAIL("spifconf_parse_line", "model:stacks-not-restored", shape, "after the line \"%s\": file stack index %d, context stack index %d", AV[d[i]], fstate_idx, ctx_state_idx); fstate_idx = 0; ctx_state_idx = 0; }
+    }
+    for (int i = 0; i < 3; i++) m_line(kinds[i]);
+    spif_charptr_t r = spifconf_parse((spif_charptr_t) g_main, NULL, NULL);
+    g_env_on = 0; g_ledger_on = 0; g_allow_fork = 1;
+    if (!r) FAIL("spifconf_parse", "model:return", shape, "returned NULL"); else FREE(r);
+    g_skip_state = 1;
+    compare_and_finish(shape, DEPTH);
+    g_skip_state = 0;
+    mc_nontrivial();
+    mc_outcome(mc_hash(EXP, sizeof(ev_t) * (size_t) (NEXP < 8 ? NEXP : 8)) + (uint64_t) NEXP);
+}
 int main(int argc, char **argv)
 {
     mc_init("C09", argc, argv);
@@ -235,6 +283,7 @@ int main(int argc, char **argv)
     mc_e2_level("depth", 255, 255 * 2, d_case, d_desc, NULL);
     mc_e2_level("include_chain", 30, 30, i_case, i_desc, NULL);
     mc_e2_level("long_lines", 61447, 60, ll_case, ll_desc, NULL);
+    for (g_n = 1; g_n <= 2; g_n++) mc_e2_level("argv_lines", g_n, mc_words_of_len(NAV, g_n), av_case, av_desc, NULL);
     for (g_n = 0; g_n <= N; g_n++) if (!mc_e2_level("files", g_n, mc_words_of_len(NKIND, g_n) * 2, f_case, f_desc, NULL)) break;
     return mc_finish();
 }
